@@ -318,10 +318,8 @@ func shapeBrief(p *Prog, v ssa.Value) string {
 
 // --- consumer side ------------------------------------------------------------
 
-// Tabled exceptions of R-DROP.
-var dropExceptions = map[string]string{
-	"(*path/exec.Executor).executeItemOptUnwrapResult drops the error of (*path/exec.Executor).executeItemUnwrapTargetArray": "called with a nil node: the callee only appends the array's elements to the list; it evaluates nothing, polls nothing and cannot fail",
-}
+// Tabled exceptions of R-DROP (none today: the one former entry went stale when the traversal started to poll the context, see DESIGN §7).
+var dropExceptions = map[string]string{}
 
 type pathState struct {
 	blk    *ssa.BasicBlock
